@@ -444,6 +444,8 @@ package server
 //@   ensures C15.op.unset: implies(calls(NewLockManagerDataUnsetData) == 1 && calls(ProcessLockData) == 0, isnil(curValue(self)) && self.currentData != nil && self.currentData.commandType == 1)
 //@   ensures C15.op.consumed: command.Data == nil || calls(ProcessLockData) >= 1
 //@   loop#1 invariant 0 <= index && index <= len(buf) && len(buf) < 0x40000000
+//@   loop#1 invariant implies(calls(ProcessLockData) >= 1, ref(self.currentData) == ghost.valueAfter[ref(self)])
+//@   at call ProcessLockData assert C15.op.pipeline-sequential: implies(calls(ProcessLockData) >= 2, ref(self.currentData) == ghost.valueAfter[ref(self)])
 //@   loop#2 invariant i >= 6 && i <= len(self.currentData.data) + 65543 && self.currentData != nil
 //@   at call NewLockManagerData assert C15.op.set: implies(arg1 == 0, arg0 == lockCommandData.Data)
 //@   at call NewLockManagerData assert C15.op.append-first: implies(arg1 == 3 && !hasValue(currentLockData), arg0 == lockCommandData.Data && arg0[4] == 0)
@@ -460,6 +462,7 @@ package server
 //@   at call NewLockManagerData assert C15.op.incr: implies(arg1 == 2, len(arg0) >= 14 && putLE64(arg0, len(arg0) - 8, incrValue) && arg0[4] == 0 && arg0[5]&0x01 != 0)
 //@   at call NewLockManagerData assert C15.op.header: implies(arg1 == 3 && hasValue(currentLockData) || arg1 == 4 || arg1 == 7, frameLenOk(arg0))
 //@   ghost valueBefore[ref(self)] = curValue(self)
+//@   ghost valueAfter[ref(self)] = after(ref(self.currentData))
 //@   assumes command.Rcount == old(command.Rcount) && command.Flag == old(command.Flag) && command.TimeoutFlag == old(command.TimeoutFlag) && command.ExpriedFlag == old(command.ExpriedFlag) && command.Expried == old(command.Expried) && command.Timeout == old(command.Timeout) && command.Count == old(command.Count) && command.LockId == old(command.LockId) && command.LockKey == old(command.LockKey)
 //@   modifies protocol.LockCommand.*, protocol.LockDBState.KeyCount, protocol.LockDBState.SlowKeyCount, LockDB.freeLockManagerHead, LockDB.freeLockManagerTail, LockDB.managerGlockIndex, LockData.*, LockManagerData.isAof, LockManager.currentData, LockManager.fastKeyValue, LockManager.lockKey, LockManager.refCount, Lock.data, PriorityMutex.*, LockDBExecutor.*, LockDBExecutorTask.*, E_Pserver_LockDBExecutor, E_Pserver_LockDBExecutorTask, E_Pserver_LockManager, E_server_FastKeyValue, MH_mapLL16JbyteJPserver_LockManager, MV_mapLL16JbyteJPserver_LockManager, BinaryServerProtocol.*, TextServerProtocol.*, MemWaiterServerProtocol.*, ProxyServerProtocol.*, TransparencyBinaryServerProtocol.*, TransparencyTextServerProtocol.*, Stream.*, StreamWriterBuffer.*, StreamReaderBuffer.*, protocol.TextParser.*
 // C07: every persisted LOCK record of a key that has a value carries the value (a restart that finds only this record, the
@@ -483,6 +486,10 @@ package server
 //@   modifies LockData.commandDatas
 //@ spec func curValue(m) = ite(m.currentData != nil && !isnil(m.currentData.data) && m.currentData.commandType != protocol.LOCK_DATA_COMMAND_TYPE_UNSET, m.currentData.data, nil)
 //@ ghost valueBefore : Slice
+// a pipeline applies its value operations one after the other: each of them starts from the value the previous one left
+// (ghost: the value object the key had when the previous ProcessLockData returned). Recorded finding: the code resets the value
+// to the one from before the pipeline in front of every sub-operation, so only the last one takes effect
+//@ ghost valueAfter : Int
 //@ func (*LockManager).GetLockData
 //@   requires self != nil
 //@   ensures C15.value.read: result == curValue(self)
